@@ -49,6 +49,8 @@ pub struct Scenario {
     pub v2_only: bool,
     pub liq_bits: (u32, u32),
     pub rewards: bool,
+    /// filter / decay period of an adaptive-fee pool: clock steps are drawn around them
+    pub af_periods: Option<(u16, u16)>,
 }
 
 /// Build a fresh world with one pool; returns the scenario description.
@@ -108,6 +110,7 @@ pub fn build_world(seed: u64, tokens: &str, rewards: bool, adaptive: bool, rec: 
         }
     };
     let v2 = tokens != "spl" || w.rng.gen_bool(0.3);
+    let mut af_periods = None;
     if adaptive {
         // an adaptive-fee pool with random valid constants
         let divisors: Vec<u16> = (1..=spacing.min(512)).filter(|d| spacing % d == 0).collect();
@@ -124,6 +127,7 @@ pub fn build_world(seed: u64, tokens: &str, rewards: bool, adaptive: bool, rec: 
             tick_group_size: gs,
             major_swap_threshold_ticks: (pick(&mut w, &[1u32, 8, 64, 1000]) as i32).min(spacing as i32 * 88) as u16,
         };
+        af_periods = Some((c.filter_period, c.decay_period));
         let funder = w.funder;
         let del = w.users["U3"];
         let ix = w.ix_init_adaptive_fee_tier("C1", 1024, spacing, funder, del, fee_rate, &c);
@@ -183,7 +187,7 @@ pub fn build_world(seed: u64, tokens: &str, rewards: bool, adaptive: bool, rec: 
         bounds.dedup();
     }
     let liq_hi = pick(&mut w, &[20u32, 40, 50, 64, 80]);
-    let sc = Scenario { pool: "P1".into(), users: vec!["U1".into(), "U2".into(), "U3".into()], bounds, full_range_only, v2_only: tokens != "spl", liq_bits: (1, liq_hi), rewards };
+    let sc = Scenario { pool: "P1".into(), users: vec!["U1".into(), "U2".into(), "U3".into()], bounds, full_range_only, v2_only: tokens != "spl", liq_bits: (1, liq_hi), rewards, af_periods };
     rec.reset(&mut w, json!({"seed": nu(seed as u128), "tokens": tokens, "spacing": spacing, "feeRate": fee_rate, "protoRate": proto}));
     (w, sc)
 }
@@ -474,6 +478,13 @@ pub fn random_step(w: &mut World, sc: &Scenario, rec: &mut Recorder) {
             rec.exec(w, &ix, false, json!(null));
         }
         80..=84 => {
+            if sc.af_periods.is_some() && r >= 82 {
+                let (f, d) = sc.af_periods.unwrap();
+                let (f, d) = (f as i64, d as i64);
+                let dt = pick(w, &[f - 1, f, f + 1, (f + d) / 2, d - 1, d, d + 1, 3601]).max(0);
+                rec.tick_clock(w, dt);
+                return;
+            }
             let ix = w.ix_update_fees(&p);
             rec.exec(w, &ix, false, json!(null));
         }
@@ -486,7 +497,14 @@ pub fn random_step(w: &mut World, sc: &Scenario, rec: &mut Recorder) {
             rec.exec(w, &ix, false, json!(null));
         }
         94..=96 => {
-            let dt = pick(w, &[0i64, 1, 1, 4, 10, 29, 61, 100, 601, 3601, 86400, 100_000_000]);
+            let dt = match sc.af_periods {
+                // around the filter / decay periods and the one-hour reset of the volatility reference
+                Some((f, d)) if w.rng.gen_bool(0.7) => {
+                    let (f, d) = (f as i64, d as i64);
+                    pick(w, &[f - 1, f, f + 1, (f + d) / 2, d - 1, d, d + 1, 3600, 3601]).max(0)
+                }
+                _ => pick(w, &[0i64, 1, 1, 4, 10, 29, 61, 100, 601, 3601, 86400, 100_000_000]),
+            };
             rec.tick_clock(w, dt);
         }
         _ => {
